@@ -81,6 +81,19 @@ type refUnit struct {
 	PESLen   int
 	Sections []*refSection
 	TailFF   bool // PSI: pad the last packet with 0xFF instead of adaptation-field stuffing
+	Tiny     bool // one or two payload bytes per packet (a unit of very many packets)
+}
+
+// refMuxPESTotal builds a bounded PES unit whose PES_packet_length is exactly total (total >= 16).
+func refMuxPESTotal(r *Rng, pid uint16, sid byte, total int) *refUnit {
+	u := refMuxPES(r, pid, sid, total, true)
+	hl := 3 + int(u.Bytes[8])
+	n := total - hl
+	u.Data = u.Data[:n]
+	u.Bytes = u.Bytes[:6+hl+n]
+	u.Bytes[4], u.Bytes[5] = byte(total>>8), byte(total)
+	u.PESLen = total
+	return u
 }
 
 func refMuxPES(r *Rng, pid uint16, sid byte, n int, unbounded bool) *refUnit {
@@ -92,7 +105,23 @@ func refMuxPES(r *Rng, pid uint16, sid byte, n int, unbounded bool) *refUnit {
 	hdr := &bw{}
 	hdr.put(2, 2)
 	hdr.put(6, uint64(r.Intn(64))&0x37) // scrambling(2) priority alignment copyright original
-	if r.Bool() {
+	if r.Chance(1, 5) {
+		// PTS and a PES extension carrying extension field 2 (bytes the parser hands out as they are)
+		u.PTS = int64(r.Bits(33))
+		n := r.Range(1, 12)
+		hdr.put(8, 0x81)
+		hdr.put(8, uint64(5+2+n))
+		hdr.put(4, 2)
+		hdr.put(3, uint64(u.PTS>>30))
+		hdr.put(1, 1)
+		hdr.put(15, uint64(u.PTS>>15))
+		hdr.put(1, 1)
+		hdr.put(15, uint64(u.PTS))
+		hdr.put(1, 1)
+		hdr.put(8, 0x0f) // no private data / pack header / sequence counter / P-STD, reserved 111, extension flag 2
+		hdr.put(8, uint64(0x80|n))
+		hdr.bytes(r.Bytes(n))
+	} else if r.Bool() {
 		u.PTS = int64(r.Bits(33))
 		hdr.put(8, 0x80)
 		stuff := r.Intn(4)
@@ -214,6 +243,8 @@ func packetiseUnit(r *Rng, u *refUnit, idx int, cc *byte, smallChunks bool) []*r
 			min = max
 		}
 		switch {
+		case u.Tiny:
+			n = r.Range(1, 2)
 		case smallChunks || r.Chance(1, 4):
 			n = r.Range(min, max)
 			if r.Chance(1, 4) {
@@ -282,8 +313,10 @@ type streamOpts struct {
 	Tables      bool // PAT + PMT units
 	Fillers     bool // null / AF-only / TEI packets in between
 	SmallChunks bool
-	Repeats     int  // how many times PAT/PMT are repeated
-	NearPIDs    bool // PES PIDs that differ in one bit from each other (and 0x0fff next to null packets)
+	Repeats     int   // how many times PAT/PMT are repeated
+	NearPIDs    bool  // PES PIDs that differ in one bit from each other (and 0x0fff next to null packets)
+	PESTotals   []int // first PES PID: bounded units with exactly these PES_packet_length values instead of random ones
+	LongUnit    int   // first PES PID: its first unit is an unbounded PES spread over at least this many packets
 }
 
 // genRefStream builds a well-formed stream: PAT first, then PMTs, PES units interleaved.
@@ -347,8 +380,12 @@ func genRefStream(r *Rng, o streamOpts) *refStreamModel {
 			pmt := &refSection{TableID: 2, Ext: pat.Programs[len(pat.Programs)-1].Number, Version: byte(r.Intn(32))}
 			for _, pid := range pesPIDs {
 				st := refStream{Type: []byte{0x1b, 0x0f, 0x03, 0x06, 0x81}[r.Intn(5)], PID: pid}
-				if r.Chance(1, 3) {
+				switch r.Intn(4) {
+				case 0:
 					st.Desc = append([]byte{0x13, byte(2)}, r.Bytes(2)...) // an unknown descriptor tag
+				case 1:
+					n := r.Range(1, 6)
+					st.Desc = append([]byte{byte(0x80 + r.Intn(0x7f)), byte(n)}, r.Bytes(n)...) // a user defined descriptor
 				}
 				pmt.Streams = append(pmt.Streams, st)
 			}
@@ -371,7 +408,19 @@ func genRefStream(r *Rng, o streamOpts) *refStreamModel {
 		if sid == 0xbf {
 			sid = 0xc1
 		}
+		if pid == pesPIDs[0] && len(o.PESTotals) > 0 {
+			for _, t := range o.PESTotals {
+				addUnit(refMuxPESTotal(r, pid, 0xc0, t))
+			}
+			continue
+		}
 		for k := 0; k < o.UnitsPerPID; k++ {
+			if pid == pesPIDs[0] && k == 0 && o.LongUnit > 0 {
+				u := refMuxPES(r, pid, 0xe0, 2*o.LongUnit, true)
+				u.Tiny = true
+				addUnit(u)
+				continue
+			}
 			n := r.Range(1, o.MaxPES)
 			switch r.Intn(8) {
 			case 0:
